@@ -54,6 +54,7 @@ partial def loop (h : IO.FS.Stream) (out : IO.FS.Stream) : IO Unit := do
   let line ← h.getLine
   if line.isEmpty then return ()
   out.putStrLn (answer line)
+  out.flush  -- the harness reads answers line by line (per-line time limit)
   loop h out
 
 def main : IO Unit := do
